@@ -6,14 +6,15 @@
 # and removes the scratch copy. Prints one summary line.
 set -u
 ID="$1"; shift
-D=/verif/seeded/$ID
+V="$(dirname "$(readlink -f "$0")")/.."; V="$(readlink -f "$V")"
+D=$V/seeded/$ID
 PROP=$(/venv/bin/python -c "import json;print(json.load(open('$D/meta.json'))['property'])")
 S=$(mktemp -d /tmp/kafe2-seeded-XXXXXX); mkdir -p $S/src
 cp -r /repo/kafe2 $S/src/kafe2; find $S -name __pycache__ -prune -exec rm -rf {} + 2>/dev/null
 if ! (cd $S/src && patch -p1 -s --fuzz=3 < $D/patch.diff); then echo "$ID: PATCH FAILED"; rm -rf $S; exit 3; fi
 (cd $S && MPLBACKEND=Agg PYTHONPATH=$S/src timeout 600 /venv/bin/python $D/demo.py >/dev/null 2>&1); demo_mut=$?
 (cd $S && MPLBACKEND=Agg PYTHONPATH=/repo timeout 600 /venv/bin/python $D/demo.py >/dev/null 2>&1); demo_orig=$?
-cd /verif
+cd $V
 out=$(KAFE2_SRC=$S/src ./check $PROP --no-evidence "$@" 2>&1); rc=$?
 nviol=$(echo "$out" | grep -c '^VIOLATION')
 rm -rf $S
